@@ -15,7 +15,7 @@ from strawberryfields.tdm import program as tdmprog
 
 PROP = "C13"
 LEVEL = "proof"
-COQ_TARGETS = ["C13/Model.vo", "C13/Obs.vo", "C13/Proofs.vo", "C13/Machine.vo", "C13/Layout.vo"]
+COQ_TARGETS = ["C13/Model.vo", "C13/Obs.vo", "C13/Proofs.vo", "C13/Machine.vo", "C13/Layout.vo", "C13/Order.vo", "C13/Old.vo", "C13/OldRefuted.vo"]
 COQ_DIRS = ["C13"]
 PROPERTIES_FILE = "Properties/C13.v"
 ALLOWED_AXIOMS = set()
@@ -40,12 +40,14 @@ ASSUMPTIONS = [
     "joint state of measured pulses is compared through the conditional Gaussian law of every homodyne outcome under injected outcomes (chain rule), plus the full Gaussian state for measurement-stripped space-unrolled circuits",
 ]
 MANIFEST_TEXT = (
-    "Proved (Coq, closed under the global context, unbounded): C13_shift_refines_loop (default shift, any bands/sizes/bins/shots: "
-    "unrolled circuit = image of the explicit fresh-mode loop), C13_reuse_separated, C13_shift_int (integer shift s<=n), "
-    "C13_space_unroll (one band, one shot), C13_roll_restores_partial (any call history; active register, circuit, caches, "
-    "init_num_subsystems). Bounded: C13_samples_layout_bounded_partial (<=3 bands of <=4 modes, <=5 bins, <=3 shots). "
-    "Refuted on the faithful model and reproduced on the implementation: dagger/select dropped, expression parameters, "
-    "space_unroll shots>1, register leftovers after roll, lock flag lost, second space_unroll, reshape of space-unrolled samples. "
+    "Proved (Coq, closed under the global context, unbounded): C13_shift_refines_loop (default shift, any bands/sizes/bins/shots, "
+    "any commands incl. dagger/select/expression parameters: unrolled circuit = image of the explicit fresh-mode loop), "
+    "C13_reuse_separated, C13_shift_int (integer shift s<=n), C13_space_unroll (one band, one shot), C13_roll_restores (any call "
+    "history: circuit, whole register, init_num_subsystems, caches restored exactly; lock flag), C13_lock_preserved, "
+    "C13_unroll_history_independent, C13_mode_order (_get_mode_order = measurement order, any bands/bins). "
+    "Bounded: C13_samples_layout_bounded_partial (<=3 bands of <=4 modes, <=5 bins, <=3 shots). "
+    "Refuted for the current code and reproduced on the implementation: space_unroll shots>1, reshape of space-unrolled samples. "
+    "Refutations of the pre-fix behaviour are kept about *_old definitions only. "
     "Model tied to tdm/program.py by exact correspondence on generated programs/histories; physics (same joint law of the "
     "measured pulses) checked on the gaussian backend with injected homodyne outcomes.")
 
@@ -426,6 +428,8 @@ def dec_ucmds(vals, spec, consts):
                 pp.append(float(spec["arrays"][k][t]))
             else:
                 pp.append(float(expr_value(v, spec["arrays"][k][t])))
+        if NAMES[op] == "Fouriergate":
+            pp = []
         out.append([NAMES[op], pp, list(modes), bool(dag), bool(sel)])
     return out
 
@@ -534,7 +538,7 @@ def corr_unroll(ctx):
     cases = []
     for i in range(n_cases):
         wf = rng.random() < 0.7
-        spec = gen_spec(rng, wellformed=wf, single_band=rng.random() < 0.3)
+        spec = gen_spec(rng, wellformed=wf, single_band=rng.random() < 0.3, max_N=7 if rng.random() < 0.2 else 4)
         space = rng.random() < 0.35
         shots = rng.choice([1, 1, 2, 3, 0])
         cases.append((spec, space, shots))
@@ -638,7 +642,7 @@ def corr_reshape(ctx):
     cases = []
     for _ in range(n_cases):
         nb = rng.choice([1, 1, 2, 3])
-        N = [rng.randint(1, 4) for _ in range(nb)]
+        N = [rng.randint(1, 7 if rng.random() < 0.3 else 4) for _ in range(nb)]
         T = rng.randint(1, 6)
         shots = rng.randint(1, 3)
         st = starts_of(N)
@@ -984,7 +988,7 @@ def judge_history(ctx, spec, hist, data, emit=True):
                 regs_after = [(i, bool(r.active)) for i, r in sorted(prog.reg_refs.items())]
                 locked = True if got[0] == "ok" else bool(prog.locked)
                 if regs_after != regs_before:
-                    kind = "grows" if len(regs_after) > len(regs_before) else "deactivated"
+                    kind = "grows" if len(regs_after) > len(regs_before) else "shrinks"
                     found.append(("history:run:user-register-%s" % kind,
                                   "call %d (%s) on a %s program changed the user's register from %s to %s" % (k, c, pre, regs_before, regs_after)))
                     break    # the user's program is corrupted from here on; later calls would only show consequences
@@ -1112,6 +1116,12 @@ def engine_check(ctx, spec, shots, inj, space=False):
             res = eng.run(prog, **kw)
     except Exception as e:
         sig = raise_signature(spec, e, "engine:run%s" % (":space" if space else ""))
+        mset = set()
+        for c in spec["cmds"]:
+            if OPS[c[0]][2]:
+                mset.add(c[2][0])
+        if not space and list(mset) != sorted(mset) and "reshape_samples" in _tb_functions(e):
+            sig = "engine:samples_dict-keys:measured_modes-set-order"
         if space and isinstance(e, IndexError) and "reshape_samples" in _tb_functions(e):
             sig = "engine:space_unroll:reshape-IndexError"
         elif isinstance(e, NotImplementedError) and "Post-selection" in str(e):
@@ -1120,9 +1130,11 @@ def engine_check(ctx, spec, shots, inj, space=False):
         return found
     # flags present in the rolled circuit the engine actually unrolled (after compilation: decompositions use .H)
     compiled = eng.run_progs[-1]
-    c_dag = any(getattr(c.op, "dagger", False) for c in compiled.rolled_circuit)
+    prog_measured = list(compiled.measured_modes)
+    # (only counts as "dropped" when the unrolled circuit that was executed has lost them)
+    c_dag = any(getattr(c.op, "dagger", False) for c in compiled.rolled_circuit) and not any(getattr(c.op, "dagger", False) for c in compiled.circuit)
     user_dag = any(c[3]["dag"] for c in spec["cmds"])
-    c_sel = any(getattr(c.op, "select", None) is not None for c in compiled.rolled_circuit)
+    c_sel = any(getattr(c.op, "select", None) is not None for c in compiled.rolled_circuit) and not any(getattr(c.op, "select", None) is not None for c in compiled.circuit)
     flag_sig = None
     if c_dag and c_sel:
         flag_sig = "apply_op:dagger-and-select-dropped"
@@ -1160,6 +1172,9 @@ def engine_check(ctx, spec, shots, inj, space=False):
     if bad_layout or bad_laws:
         if space and shots > 1:
             sig = "space_unroll:shots>1"
+        elif bad_layout and not space and list(prog_measured) != sorted(prog_measured):
+            # measured_modes is list(set): the set iteration order is not the band order once indices reach 8
+            sig = "engine:samples_dict-keys:measured_modes-set-order"
         elif flag_sig is not None:
             sig = flag_sig
         elif bad_layout:
@@ -1220,7 +1235,7 @@ def search(ctx):
     # 1. structural predicate at scale: unrolled circuit = image of the explicit loop
     for _ in range(ctx.budget(300, 8000)):
         spec = gen_spec(rng, wellformed=True, allow_flags=rng.random() < 0.25, allow_expr=rng.random() < 0.15,
-                        single_band=rng.random() < 0.4)
+                        single_band=rng.random() < 0.4, max_N=7 if rng.random() < 0.25 else 4)
         space = len(spec["N"]) == 1 and rng.random() < 0.4
         if space:
             spec["shift"] = "default"
@@ -1254,8 +1269,9 @@ def search(ctx):
             ctx.counterexample(sig, what, data)
     # 4. engine end to end (default shift): sample layout + laws
     for _ in range(ctx.budget(40, 1000)):
+        big = rng.random() < 0.3     # band starts beyond 8: set iteration order of measured modes is no longer sorted
         spec = gen_spec(rng, physical=True, wellformed=True, allow_flags=rng.random() < 0.15, allow_expr=rng.random() < 0.1,
-                        shift_kinds=("default",), max_N=3, max_T=4, max_bands=3,
+                        shift_kinds=("default",), max_N=6 if big else 3, max_T=4, max_bands=3,
                         names=PRIMITIVE * 3 + DECOMPOSED)
         shots = rng.choice([1, 1, 2, 3])
         if has_flags(spec):
